@@ -382,10 +382,59 @@ func (m *machine) exec(op Op) error {
 		m.shutdownIssued = true
 		m.shutdownDone = make(chan struct{})
 		m.log.Add(capsim.Event{Kind: "shutdown-begin"})
+		noSendBlocked := m.issueBusy == nil && len(m.burstBusy) == 0
+		for _, cs := range m.calls {
+			for _, ps := range cs.pipes {
+				if ps.held {
+					// a pipelined call parked inside the result capability keeps its answer's queue, hence the call's
+					// slot, hence possibly a later Send, busy: what Release has to wait for is not determined here
+					noSendBlocked = false
+				}
+			}
+			select {
+			case <-cs.sent:
+			default:
+				noSendBlocked = false
+			}
+		}
 		go func() {
 			defer close(m.shutdownDone)
 			m.client.Release()
 		}()
+		if noSendBlocked {
+			// Shutdown cancels the running calls and waits for them: without any gate being opened, every
+			// implementation that has started returns (its context is done), then the user's Shutdown runs.
+			// (While a SendCall is still inside the server the last Release waits for it first - then this does not
+			// apply yet and the wind-down covers it.)
+			t0 := time.Now()
+			for {
+				stuck := -1
+				m.mu.Lock()
+				n := len(m.calls)
+				m.mu.Unlock()
+				for id := 0; id < n; id++ {
+					if m.started(id) && !m.returned(id) {
+						stuck = id
+					}
+				}
+				if stuck < 0 {
+					break
+				}
+				if time.Since(t0) > deadline {
+					ev := ""
+					for _, e := range m.log.Snapshot() {
+						ev += fmt.Sprintf("%s(%d) ", e.Kind, e.Call)
+					}
+					return pbt.Fail("shutdown-does-not-cancel", "the last reference was released while call %d was running (no SendCall pending): the call's context was not cancelled within %v, Shutdown waits for it forever\nevents: %s\n%s", stuck, deadline, ev, pbt.Stacks("capnp/v3/server"))
+				}
+				time.Sleep(100 * time.Microsecond)
+			}
+			select {
+			case <-m.shutdownDone:
+			case <-time.After(deadline):
+				return pbt.Fail("hang/shutdown", "every running call returned after the last Release, but Release/Shutdown did not return within %v\n%s", deadline, pbt.Stacks("capnp/v3"))
+			}
+		}
 		return m.settle()
 	}
 	return nil
